@@ -36,6 +36,39 @@ def liqSeize (ctok : String) (info : SupplyInfo) (nb : Rat) : M Unit :=
 def resetAll : M Unit :=
   modify (fun s => { s with borAmtC := .fresh, borC := .fresh, supAmtC := .fresh, supC := .fresh, collC := .fresh })
 
+/-- `self.get_borrow(key).amount if key in self._borrows else DECIMAL_0` -/
+def liqDebtOf (dtok : String) : M Rat := do
+  let hasDebt ← queryPos (fun _ bor => .ok (AList.contains bor dtok))
+  if hasDebt then do
+    let b ← getBorrow cx env dtok
+    pure b.amount
+  else pure 0
+
+/-- `risk[c].reserveLiquidationThreshold != 0 and self._supplies[c].collateral` (short-circuit) -/
+def liqEnabled (ctok : String) (cr : Risk) : M Bool :=
+  if cr.lt ≠ 0 then do
+    let info ← lookupSupply ctok
+    pure info.coll
+  else pure false
+
+/-- collateral to seize and debt to repay: the bonus-inflated counter-value of the debt, or everything the
+    user has with the repayment scaled down -/
+def liqAmounts (pd pc actual userBal bonus : Rat) : Res (Rat × Rat) := do
+  let should ← divE cx (cx.mul pd actual) pc
+  let onePlus := cx.add 1 bonus
+  let maxColl := cx.mul should onePlus
+  if maxColl > userBal then do
+    let d ← divE cx (cx.mul pc userBal) (cx.mul pd onePlus)
+    pure (userBal, d)
+  else pure (maxColl, actual)
+
+/-- the mutations of `_do_liquidate`: seize, then repay (or the late `raise`), then the five resets -/
+def liqCommit (ctok : String) (info : SupplyInfo) (nb : Rat) (dtok : String) (varDebt debtLiq : Rat) : M Rat := do
+  liqSeize ctok info nb
+  let remaining ← if varDebt ≥ debtLiq then subBorrowAmount cx env dtok debtLiq else throw .liqDebtExceeds
+  resetAll
+  pure remaining
+
 /-- `_do_liquidate(collateral_token, delt_token, delt_value_to_cover)` -/
 def doLiquidate (ctok? : Option String) (dtok? : Option String) (toCover : Rat) : M Unit := do
   let oldHf ← healthFactor cx env
@@ -46,41 +79,26 @@ def doLiquidate (ctok? : Option String) (dtok? : Option String) (toCover : Rat) 
   let borrowIndex := dst.varIdx
   let supplyIndex := cst.liqIdx
   let cr ← ofRes (env.riskOf ctok)
-  let hasDebt ← queryPos (fun _ bor => .ok (AList.contains bor dtok))
-  let varDebt ← if hasDebt then do
-      let b ← getBorrow cx env dtok
-      pure b.amount
-    else pure 0
+  let varDebt ← liqDebtOf cx env dtok
   let closeFactor := if oldHf.gtR Gen.aaveCloseFactorHf then Gen.aaveCloseFactorDefault else Gen.aaveCloseFactorMax
   let maxLiq := cx.mul varDebt closeFactor
   let actual := if toCover > maxLiq then maxLiq else toCover
-  let enabled ← if cr.lt ≠ 0 then do
-      let info ← lookupSupply ctok
-      pure info.coll
-    else pure false
+  let enabled ← liqEnabled ctok cr
   require enabled .liqNotEnabled
   require (varDebt ≠ 0) .liqNoDebt
   let info ← lookupSupply ctok
   let userBal := cx.mul info.base cst.liqIdx
   let pd ← ofRes (env.priceOf dtok)
   let pc ← ofRes (env.priceOf ctok)
-  let should ← ofRes (divE cx (cx.mul pd actual) pc)
-  let onePlus := cx.add 1 cr.bonus
-  let maxColl := cx.mul should onePlus
-  let (collLiq, debtLiq) ← if maxColl > userBal then do
-      let d ← ofRes (divE cx (cx.mul pc userBal) (cx.mul pd onePlus))
-      pure (userBal, d)
-    else pure (maxColl, actual)
-  let dBase ← ofRes (divE cx collLiq supplyIndex)
+  let amts ← ofRes (liqAmounts cx pd pc actual userBal cr.bonus)
+  let dBase ← ofRes (divE cx amts.1 supplyIndex)
   let nb := subBase cx info.base dBase
-  liqSeize ctok info nb
-  let remaining ← if varDebt ≥ debtLiq then subBorrowAmount cx env dtok debtLiq else throw .liqDebtExceeds
-  resetAll
+  let remaining ← liqCommit cx env ctok info nb dtok varDebt amts.2
   let hfAfter ← healthFactor cx env
   let collBaseAfter ← queryPos (fun sup _ => .ok (match AList.get? sup ctok with
     | some i => i.base
     | none => 0))
-  record (.liquidation ctok dtok toCover collLiq debtLiq oldHf hfAfter
+  record (.liquidation ctok dtok toCover amts.1 amts.2 oldHf hfAfter
             (cx.mul collBaseAfter supplyIndex) (cx.mul remaining borrowIndex))
 
 /-- the `while 0 < health_factor < 1` loop; `fuel` = number of debts + 1 (every round marks one more debt
